@@ -112,6 +112,36 @@ def gen_history(r, forced=None):
     return files, ops, kinds
 
 
+def barrel_history(r):
+    """a name that reaches the entry point through `export *` barrels, first resolved by one rebuild, then moved: the file the
+    barrel forwards to is edited (not the barrel) so that the name comes from somewhere else, disappears, or changes"""
+    t1 = "{ a: string }"
+    t2 = r.choice(["{ a: number; extra: boolean }", "{ b: string[] }", "string"])
+    files = {"entry.ts": 'import { T } from "./barrel";\nparse.buildParsers<{ T: T }>();',
+             "barrel.ts": 'export * from "./b";\nexport * from "./c";', "c.ts": "export type C0 = number;"}
+    kind = r.randrange(4)
+    if kind == 0:
+        files.update({"b.ts": 'export { T } from "./v1";', "v1.ts": "export type T = %s;" % t1, "v2.ts": "export type T = %s;" % t2})
+        edits = [[["update", "b.ts", 'export { T } from "./v2";']], [["update", "b.ts", 'export { T } from "./v1";']]]
+    elif kind == 1:
+        files.update({"b.ts": "export type T = %s;" % t1})
+        edits = [[["update", "b.ts", "export type U = string;"], ["update", "c.ts", "export type T = %s;" % t2]],
+                 [["update", "c.ts", "export type C0 = number;"], ["update", "b.ts", "export type T = %s;" % t1]]]
+    elif kind == 2:
+        files.update({"b.ts": "export type T = %s;" % t1})
+        edits = [[["update", "b.ts", "export type U = string;"]], [["update", "b.ts", "export type T = %s;" % t2]]]
+    else:
+        files.update({"b.ts": "export type T = %s;\nexport const K = 1;" % t1})
+        edits = [[["update", "b.ts", "export type T = %s" % t1 + " & ;"]], [["update", "b.ts", "export type T = %s;" % t2]]]
+    ops = [["rebuild"]]
+    for e in edits[: r.randrange(1, 3)]:
+        ops += e + [["rebuild"]]
+    kinds = {}
+    for op in ops:
+        if op[0] == "update": kinds[(op[1], op[2])] = "broken" if op[2].endswith("& ;") else "valid"
+    return files, ops, kinds
+
+
 def frozen_importer(files, ops_before):
     """at this rebuild some file was created during the session after a file that imports it was last read by the session"""
     disk = dict(files)
@@ -157,7 +187,7 @@ def check(run):
     hist = []
     for i in range(n):
         forced = {0: "broken-then-rebuild", 1: "comment-only", 2: "shifted-diagnostic", 3: "created-module", 4: "created-module-resaved"}.get(i % 6)
-        hist.append(gen_history(r, forced))
+        hist.append(barrel_history(r) if i % 12 == 11 else gen_history(r, forced))
     known = common.load_known("C14")
     for kf in known:
         w = json.loads(kf["witness"])
